@@ -149,8 +149,11 @@ def cpp_twins(ctx):
         pt2 = {"dt": pt["dt"], "state": {m[k]: v for k, v in pt["state"].items()}, "control": {m[k]: v for k, v in pt["control"].items()},
                "cal": {m[k]: v for k, v in pt["cal"].items()}}
         try:
-            g1 = cppgen.generate(d, process, sensor, pt["cal"], ctx.scratch, f"r{i}a", filtering=None, rng=ctx.rng)
-            g2 = cppgen.generate(d2, process2, sensor, pt2["cal"], ctx.scratch, f"r{i}b", filtering=None, rng=ctx.rng, container="list")
+            # every other pair: the symbols carry a sympy assumption (declared real); they are still the model's symbols
+            assume = {"real": True} if i % 2 == 1 else None
+            g1 = cppgen.generate(d, process, sensor, pt["cal"], ctx.scratch, f"r{i}a", filtering=None, rng=ctx.rng, symbol_assumptions=assume)
+            g2 = cppgen.generate(d2, process2, sensor, pt2["cal"], ctx.scratch, f"r{i}b", filtering=None, rng=ctx.rng, container="list",
+                                 symbol_assumptions=assume)
         except Exception as e:
             ctx.fail(f"cpp-generate-raises:{fk.exc_kind(e)}", f"C++ generation raises {e!r}"[:300], {"def": d.describe()})
             continue
@@ -183,6 +186,40 @@ def cpp_twins(ctx):
                 if not core.close(tw[what].get(k2, float("nan")), v, scale=max(abs(x) for x in vals.values())):
                     ctx.fail(f"rename:cpp:{what.split(':')[0]}", f"C++ {what}[{key}] = {v!r} but the renamed twin gives [{k2}] = {tw[what].get(k2)!r}", case)
                     break
+
+
+def default_constructed(ctx):
+    """an object constructed with no named values holds the defaults (zeros; unit variances) whatever the filter has computed before,
+    and is a value of its own: writing into one does not show in the next one"""
+    for i in range(2 if ctx.quick else 12):
+        d = gen.gen_definition(ctx.rng, n_state=2, n_control=0, n_calib=0, n_sensors=1, depth=1, max_readings=2)
+        key = sorted(d.sensors)[0]
+        rd0 = sorted(d.sensors[key])[0]
+        d.sensors[key][rd0] = d.sensors[key][rd0] + 3           # the prediction at the zero state is not zero
+        process, sensor = eh.make_noises(ctx.rng, d)
+        pt = gen.gen_point(ctx.rng, d)
+        case = {"def": d.describe(), "op": "default-constructed"}
+        ctx.case(case, True); ctx.count("default_constructed")
+        try:
+            with fk.quiet():
+                ekf = eh.compile_ekf(d, process, sensor, {}, ctx.rng, cse=True)
+                st = eh.state_obj(ekf, pt)
+                ekf.sensor_model(st, ekf.Covariance(), sensor_key=key, sensor_reading=ekf.make_reading(key, **{r: 0.5 for r in d.sensors[key]}))
+                ekf.sensor_models[key].model(st)
+                fresh = {"reading": ekf.make_reading(key), "state": ekf.State(), "covariance": ekf.Covariance()}
+                m = len(d.sensors[key]); n = len(d.state)
+                want = {"reading": np.zeros((m, 1)), "state": np.zeros((n, 1)), "covariance": np.eye(n)}
+                for what, obj in fresh.items():
+                    if not np.array_equal(np.asarray(obj.data, dtype=float), want[what]):
+                        ctx.fail(f"default-not-default:{what}", f"a {what} constructed with no values after the filter was used holds "
+                                 f"{np.asarray(obj.data).tolist()}", dict(case, what=what))
+                first = ekf.make_reading(key)
+                first.data[0, 0] = 7.0
+                second = ekf.make_reading(key)
+                if float(np.asarray(second.data)[0, 0]) != 0.0:
+                    ctx.fail("default-shared:reading", "writing into one default-constructed reading shows in the next default-constructed reading", case)
+        except Exception as e:
+            ctx.fail(f"run-raises:{fk.exc_kind(e)}", f"filter over a valid definition raises {e!r}"[:300], case)
 
 
 def foreign_objects(ctx):
@@ -229,6 +266,7 @@ def run(ctx):
     pending = []
     ctor_cases(ctx, drv, pending)
     foreign_objects(ctx)
+    default_constructed(ctx)
     ndefs = 10 if ctx.quick else 100
     for i in range(ndefs):
         d = gen.gen_definition(ctx.rng, n_state=ctx.rng.choice([2, 3, 4]), n_sensors=ctx.rng.choice([1, 2]), depth=2, max_readings=2)
